@@ -389,6 +389,9 @@ func generated(seed uint64, broken bool) *Source {
 			ok = false // needs the retriever or a slow importer: no expectation
 		case f.Kind == "sysl":
 			src.ExpectApps = append(src.ExpectApps, fmt.Sprintf("F%d", i))
+			if w.Files[i].Layout&32 != 0 {
+				src.ExpectApps = append(src.ExpectApps, fmt.Sprintf("importer%d", i))
+			}
 			if w.Files[i].Layout&16 != 0 {
 				src.ExpectApps = append(src.ExpectApps, fmt.Sprintf("import Gateway%d", i))
 			}
